@@ -91,3 +91,9 @@ Definition usize_as_i32 (n : nat) : Z :=
   let m := (Z.of_nat n mod 4294967296)%Z in
   if (m <? 2147483648)%Z then m else (m - 4294967296)%Z.
 Definition i32_as_usize (i : Z) : nat := Z.to_nat (i mod 18446744073709551616).
+
+(* Vec::resize(n, v) and the maximum of a slice of u32 *)
+Definition vec_resize {A} (l : list A) (n : nat) (v : A) : list A :=
+  if Nat.leb n (length l) then firstn n l else l ++ repeat v (n - length l).
+Definition list_max_opt (l : list N) : option N :=
+  match l with [] => None | x :: r => Some (fold_left N.max r x) end.
